@@ -168,7 +168,8 @@ CHECKS = {
              "erase_validateR (a forwarding custom wrapper yields the same errors with the same paths and actual "
              "values, and the same exception where validation raises), erase_conforms, erase_subst (substitution "
              "succeeds or fails identically), erase_gen (every world, every tape: same value, same remaining tape), "
-             "erase_wf. The printed form is not modelled here (C06). The real assurance that "
+             "erase_wf, erase_represent (the representor builds the same expression tree for the wrapped tree as for the "
+             "erased one, wrappers at any depth; theories/Represent.v hands the visitor to the wrapped schema). The real assurance that "
              "the REAL containers forward path/indent/kwargs in every position is the correspondence: a forwarding "
              "CustomSchema defined in the harness, random trees with random positions wrapped (built from the built "
              "tree), compared wrapped vs unwrapped on validate (errors, paths, messages, both validators), generate "
